@@ -21,27 +21,7 @@ Proof.
   destruct (P _ _ _ W E) as [W' E']. now apply H.
 Qed.
 
-(* types whose shape determines them *)
-Definition rigid (h : tyh) : bool :=
-  match h with HVoid | HNil | HInt | HFloat | HBool | HStr | HTy | HInvalid => true | _ => false end.
-
-Lemma rigid_shape h h' : rigid h = true -> same_shape h h' = true -> h' = h.
-Proof. destruct h; try discriminate; destruct h'; try discriminate; reflexivity. Qed.
-
-Lemma rigid_known h : rigid h = true -> is_unknown h = false.
-Proof. destruct h; try discriminate; reflexivity. Qed.
-
-Lemma head_keep s s' x h : ext s s' -> head s x = Some h -> rigid h = true -> head s' x = Some h.
-Proof.
-  intros (_ & _ & _ & E4) H R. destruct (E4 _ _ H (rigid_known _ R)) as (h' & H' & S).
-  rewrite (rigid_shape _ _ R S) in H'. exact H'.
-Qed.
-
-Lemma same_rep_same_head s a b q : rep s a = Some q -> rep s b = Some q -> head s a = head s b.
-Proof.
-  unfold rep, head. destruct (lk s a) as [x|]; [|discriminate]. destruct (lk s b) as [y|]; [|discriminate].
-  cbn. intros [= ->] [= ->]. reflexivity.
-Qed.
+(* rigid, rigid_shape, rigid_known, head_keep, same_rep_same_head: TcInv *)
 
 (* unification of two classes with known heads of different shapes is rejected *)
 Lemma unify_rejects g sp a b s ha hb :
@@ -448,7 +428,7 @@ Section Kinds.
       destruct (lit_spec _ _ _ b _ _ _ _ _ Lb Rb W1 H2) as (_ & _ & Hy). cbn [snd] in Hy.
       apply bind_cases; [apply pres_push|assumption|]. intros bo s3 H3 W3 E3.
       destruct (push_spec _ _ _ _ W2 H3) as (_ & _ & Hb).
-      apply bind_cases; [unfold unify; apply pres_bind; [apply (gp_unify G PG)|intros; apply pres_ret]|assumption|].
+      apply bind_cases; [unfold unify; apply pres_bind; [apply (gp_unify0 G PG)|intros; apply pres_ret]|assumption|].
       intros u4 s4 H4 W4 E4.
       apply bind_notok_l. apply (unify_rejects g sp y bo s4 tb HBool W4); try assumption; try reflexivity.
       - eapply head_keep; [eassumption| |assumption]. eapply head_keep; eassumption.
@@ -515,7 +495,7 @@ Section Kinds.
     apply bind_cases; [apply pres_push|assumption|]. intros ret0 s2 H2 W2 E2.
     apply bind_notok_l. cbn [iterM].
     (* first element *)
-    apply bind_cases; [prs; try apply (ap_expr _ (PA _)); try apply (gp_unify G PG)|assumption|]. intros u3 s3 H3 W3 E3.
+    apply bind_cases; [prs; try apply (ap_expr _ (PA _)); try apply (gp_unify0 G PG)|assumption|]. intros u3 s3 H3 W3 E3.
     apply bind_inv in H3 as ([ar x] & s31 & Hx1 & H3).
     destruct (lit_spec _ _ _ a _ _ _ _ _ La Ra W2 Hx1) as (W31 & E31 & Hx). cbn [snd] in Hx.
     apply bind_inv in H3 as (u32 & s32 & Hu & H3).
@@ -524,7 +504,7 @@ Section Kinds.
     { apply bind_inv in H3 as (u33 & s33 & Huo & H3). injection H3 as _ <-.
       eapply (pres_bind (unify_option G sp (Some ret0) ar) (fun _ => ret tt)); [| |exact W32|].
       - unfold unify_option. destruct ar; [|apply pres_ret].
-        apply pres_bind; [unfold unify; apply pres_bind; [apply (gp_unify G PG)|intros; apply pres_ret]|intros; apply pres_ret].
+        apply pres_bind; [unfold unify; apply pres_bind; [apply (gp_unify0 G PG)|intros; apply pres_ret]|intros; apply pres_ret].
       - intros; apply pres_ret.
       - unfold bind. rewrite Huo. reflexivity. }
     assert (Hin3 : head s3 inner = Some ta).
@@ -566,7 +546,7 @@ Section Kinds.
               destruct (push_spec _ _ _ _ W0 Hp) as (_ & _ & Hh); destruct b; exact Hh).
     all: apply bind_cases; [apply pres_add_constraint|assumption|]; intros u3 s3 H3 W3 E3.
     all: destruct (add_constraint_spec _ _ _ _ _ W2 H3) as (_ & _ & Hd3 & _ & _ & _).
-    all: apply bind_cases; [unfold unify; apply pres_bind; [apply (gp_unify G PG)|intros; apply pres_ret]|assumption|];
+    all: apply bind_cases; [unfold unify; apply pres_bind; [apply (gp_unify0 G PG)|intros; apply pres_ret]|assumption|];
       intros u4 s4 H4 W4' E4.
     all: destruct (unify_ok_heads _ _ _ _ _ _ _ W3 H4) as (W4 & _ & Heq).
     all: assert (Hvt : head s4 vt = Some (base_head b))
@@ -638,7 +618,7 @@ Section Kinds.
       destruct (isv && negb (is_void_ty rty)); [discriminate|].
       apply bind_inv in H1 as (u' & s7 & _ & H1). now injection H1. }
     subst ex.
-    destruct E21 as (_ & _ & _ & E4). destruct (E4 _ _ Hf eq_refl) as (h1 & Hh1 & Sh1).
+    destruct E21 as (_ & _ & _ & E4 & _). destruct (E4 _ _ Hf eq_refl) as (h1 & Hh1 & Sh1).
     destruct h1; cbn in Sh1; try discriminate. apply PeanoNat.Nat.eqb_eq in Sh1.
     rewrite (bind_ok _ _ _ _ _ (find_type_ok _ _ _ Hh1)) in H.
     apply bind_inv in H as (c & s8 & Hc & H). injection H as <- <-. cbn [snd].
@@ -757,7 +737,7 @@ Section Kinds.
     rewrite Hm in Hd. rewrite (bind_ok (ret tt) _ s tt s eq_refl) in Hd.
     apply bind_inv_pres0 in Hd as (dt & s3 & _ & W3 & E3 & Hd); [|eapply pres_resolve_type, PA|assumption].
     apply bind_inv_pres0 in Hd as (u4 & s4 & _ & W4 & E4 & Hd); [|apply pres_add_constraint|assumption].
-    apply bind_inv_pres0 in Hd as (u5 & s5 & _ & W5 & E5 & Hd); [|unfold unify; apply pres_bind; [apply (gp_unify G PG)|intros; apply pres_ret]|assumption].
+    apply bind_inv_pres0 in Hd as (u5 & s5 & _ & W5 & E5 & Hd); [|unfold unify; apply pres_bind; [apply (gp_unify0 G PG)|intros; apply pres_ret]|assumption].
     apply bind_inv in Hd as ([vr vl] & s6 & Hl & Hd).
     destruct (lit_spec _ _ _ lit _ _ _ _ _ Ll Rl W5 Hl) as (W6 & E6 & Hvl). cbn [snd] in Hvl.
     apply bind_inv in Hd as (u7 & s7 & H7 & Hd). injection Hd as _ Es. subst s7.
@@ -787,7 +767,7 @@ Section Kinds.
       destruct (add_constraint_spec _ _ _ _ _ W1 H9) as (W9 & E9 & Hd9 & _ & C9 & _).
       destruct (add_constraint_spec _ _ _ _ _ W9 H8) as (_ & _ & Hd8 & _ & C8 & _).
       apply bind_notok_l.
-      apply bind_cases; [unfold unify; apply pres_bind; [apply (gp_unify G PG)|intros; apply pres_ret]|assumption|].
+      apply bind_cases; [unfold unify; apply pres_bind; [apply (gp_unify0 G PG)|intros; apply pres_ret]|assumption|].
       intros u10 s10 H10 W10 E10.
       (* unify x x changes nothing: both sides are one class *)
       assert (s10 = s8).
